@@ -696,10 +696,17 @@ func aeadOpen(in *Interp, fr *frame, o *Obj, a []Value) Value {
 		in.goPanic("crypto/cipher: incorrect nonce length given to GCM")
 	}
 	fail := func() Value {
+		// like crypto/cipher: the output region (inside dst's spare capacity when there is enough of it) is cleared
+		if n := len(ct) - 16; n > 0 && cap(dst.A)-len(dst.A) >= n {
+			region := dst.A[len(dst.A) : len(dst.A)+n]
+			for i := range region {
+				region[i] = mkBV(8, 0)
+			}
+		}
 		return Tuple{Slice{Nil: true}, in.errorValue("cipher: message authentication failed")}
 	}
 	if len(ct) < 16 {
-		return fail()
+		return Tuple{Slice{Nil: true}, in.errorValue("cipher: message authentication failed")}
 	}
 	key := o.X.([]BV)
 	body, tag := ct[:len(ct)-16], ct[len(ct)-16:]
@@ -750,6 +757,15 @@ func aeadOpen(in *Interp, fr *frame, o *Obj, a []Value) Value {
 	}
 	e := cands[k]
 	in.res.note("aead.open.hit")
+	// Open appends to dst: in place when dst has the capacity (dst = data[:0] overwrites the ciphertext it was read
+	// from), into a fresh array otherwise
+	if len(e.pt) > 0 && cap(dst.A)-len(dst.A) >= len(e.pt) {
+		res := dst.A[:len(dst.A)+len(e.pt)]
+		for i, b := range e.pt {
+			res[len(dst.A)+i] = b
+		}
+		return Tuple{Slice{A: res}, nilError()}
+	}
 	out := make([]Value, len(dst.A), len(dst.A)+len(e.pt))
 	copy(out, dst.A)
 	for _, b := range e.pt {
